@@ -9,11 +9,13 @@ PROP = "C10"
 PROOF_FILES = ["Properties/C10.v"]
 RULE = ("trk.hist pool script: every call of the script runs on the real scte35.State with descriptors built through the "
         "public API; observed per call: ids of the closed list, error, ids of Open() after the call, panics. Quick: all "
-        "histories of length 3 over a 15-descriptor alphabet x {Process, Close} + Open (24 389), all of length 4 over a "
-        "reduced alphabet, the replays of F10, ring/VSS scenarios and random histories up to length 200 over random pools; "
-        "thorough: all of length 4 over the full alphabet and of length 5 over the reduced one. A history is non-trivial when "
-        "at least one call closes a descriptor or is rejected and at least one program breakaway is processed... measured "
-        "as: the reply contains a non-empty closed list or a non-zero error.")
+        "histories of length 3 over a 15-descriptor alphabet x {Process, Close} + Open (29^3 = 24 389), all of length 4 over a "
+        "reduced alphabet (12^4 = 20 736), the replays of F10, ring / VSS scenarios and 800 random histories up to length 200 "
+        "over random pools (1..14 distinct signal times, Equal copies, descriptors without PTS, VSS ids); thorough: all of "
+        "length 4 over the full alphabet (707 281) and of length 5 over the reduced one (248 832), 12 000 random. Every history "
+        "is judged twice: by the Coq-extracted trace checker (Spec/Trackers.v) on the REAL observations and by equality with the "
+        "model's observations. A history is counted non-trivial when it hands at least two descriptors with a PTS to "
+        "ProcessDescriptor (closing, duplicate detection and the blackout bookkeeping need two).")
 EXHAUSTIVE = True
 EXHAUSTIVE_NOTE = ("small-scope: every history up to the stated length over the stated alphabet is enumerated (each history also "
                    "checks all its prefixes); unbounded histories are covered by the theorems (induction over the call list)")
@@ -67,17 +69,22 @@ TYPES = [0x10, 0x11, 0x12, 0x13, 0x14, 0x17, 0x19, 0x20, 0x21, 0x22, 0x23, 0x30,
          0x44, 0x45, 0x50, 0x51, 0x3C, 0x01]
 
 
+def nontriv(pool, script):
+    return sum(1 for c in script if c[0] == 0 and pool[c[1]]["haspts"]) >= 2
+
+
 def hist(pool, script, kind, theorem="C10_inv_reachable"):
-    return Case(line_of(pool, script), kind=kind, decides=True, nontrivial=True, theorem=theorem)
+    return Case(line_of(pool, script), kind=kind, decides=True, nontrivial=nontriv(pool, script), theorem=theorem)
 
 
 def exhaustive(pool, popts, copts, n, kind):
     opts = [(0, i) for i in popts] + [(1, i) for i in copts] + [(2,)]
     ptok = pool_tok(pool)
-    toks = [call_tok(c) for c in opts]
+    toks = [(call_tok(c), 1 if c[0] == 0 and pool[c[1]]["haspts"] else 0) for c in opts]
     out = []
     for combo in itertools.product(toks, repeat=n):
-        out.append(Case("trk.hist %s [ %s ]" % (ptok, " ".join(combo)), kind=kind, decides=True, nontrivial=True, theorem="C10_inv_reachable"))
+        out.append(Case("trk.hist %s [ %s ]" % (ptok, " ".join(t for t, _ in combo)), kind=kind, decides=True,
+                        nontrivial=sum(w for _, w in combo) >= 2, theorem="C10_inv_reachable"))
     return out
 
 
